@@ -7,12 +7,13 @@ import (
 	"go/ast"
 	"go/token"
 	"go/types"
+	"sort"
 	"strings"
 )
 
 func init() {
 	register("C33", propMeta{
-		Explanation:  "Decides the guards around what Get / Query may return; cosine values, distinctness and preservation across Optimize are NOT decided: (R1) Query: candidates are sorted by descending score before selection; the selection loop ranges over the sorted candidates in order, stops once k hits are taken (test at the top of every iteration), and appends a hit only when the Content entry was found, is not marked Deleted, decodes, and passes the filter (filter == nil || filter(payload)); deleted vector keys and nil vectors are skipped while collecting candidates; (R2) Get: an item is returned only when the Content entry was found and is not marked Deleted (both yield an error), and the vector is looked up under the (centroid, distance, id) key; (R3) Delete marks the Content key Deleted through UpdateCurrentKey before any success return for a found item, and Delete / Upsert / UpsertBatch refuse to run while the store is optimizing; (R4) generation agreement of the lazy migration: wherever a function of the package takes an item's centroid from the Next generation (NextCentroidID), it takes the distance from the same generation (NextDistance) on every path before the pair is used - a (new centroid, old distance) pair does not name any vector key. (R5) the deduplication flag (cleanup of an id's previous vector entry) is written by its exported setter only.",
+		Explanation:  "Decides the guards around what Get / Query may return; cosine values, distinctness and preservation across Optimize are NOT decided: (R1) Query: candidates are sorted by descending score before selection; the selection loop ranges over the sorted candidates in order, stops once k hits are taken (test at the top of every iteration), and appends a hit only when the Content entry was found, is not marked Deleted, decodes, and passes the filter (filter == nil || filter(payload)); deleted vector keys and nil vectors are skipped while collecting candidates; (R2) Get: an item is returned only when the Content entry was found and is not marked Deleted (both yield an error), and the vector is looked up under the (centroid, distance, id) key; (R3) Delete marks the Content key Deleted through UpdateCurrentKey before any success return for a found item, and Delete / Upsert / UpsertBatch refuse to run while the store is optimizing; (R4) generation agreement of the lazy migration: wherever a function of the package takes an item's centroid from the Next generation (NextCentroidID), it takes the distance from the same generation (NextDistance) on every path before the pair is used - a (new centroid, old distance) pair does not name any vector key. (R5) the deduplication flag (cleanup of an id's previous vector entry) is written by its exported setter only. (R6) the leftover cleanup at the start of Optimize removes every version-qualified store the phases build (lookup, centroids, vectors of version N+1; the set is read off the sop.ConfigureStore name arguments of the Optimize file), so a retry never inserts into a half-built vectors store.",
 		DoesNotCover: "Ranking values (cosine), that hits are distinct when stale vectors exist, and that Optimize never loses, duplicates or resurrects items are value/history-level and not decided.",
 	}, runC33)
 }
@@ -302,6 +303,120 @@ func runC33(c *Ctx) {
 		guards := gu.condNodes(func(e ast.Expr) bool { return fieldOfSelector(info, e) == fld })
 		c.Check(len(guards) >= 1, r5, "upsertItem: cleanup of the previous entry is guarded by the flag", fu.Decl.Pos(), fmt.Sprintf("%d guard(s)", len(guards)), "the deduplication guard is gone from upsertItem", nil)
 	}
+
+	r6 := c.Rule("R6", "a retried Optimize starts from empty next-version stores: the leftover cleanup in initialize removes every version-qualified store the phases build (lookup, centroids and vectors of version N+1)", 2)
+	{
+		fi := w.Fn("ai/vector.domainIndex.initialize")
+		c.Analysed(fi)
+		info := fi.Pkg.TypesInfo
+		pkgConsts := func(e ast.Node) map[string]bool {
+			out := map[string]bool{}
+			ast.Inspect(e, func(x ast.Node) bool {
+				if id, ok := x.(*ast.Ident); ok {
+					if k, ok := info.Uses[id].(*types.Const); ok && k.Pkg() == fi.Pkg.Types && k.Parent() == k.Pkg().Scope() {
+						out[k.Name()] = true
+					}
+				}
+				return true
+			})
+			return out
+		}
+		// the stores the phases build per version: name arguments of sop.ConfigureStore in the file of
+		// initialize that are a concatenation of at least three operands (domain + kind + version suffix)
+		file, _ := w.Pos(fi.Decl.Pos())
+		built := map[string]bool{}
+		for _, fn := range w.declaredFuncs("ai/vector") {
+			if ff, _ := w.Pos(fn.Decl.Pos()); ff != file {
+				continue
+			}
+			for _, cs := range w.AllSites(fn) {
+				if cs.Key != "sop.ConfigureStore" || len(cs.Call.Args) == 0 {
+					continue
+				}
+				leaves := 0
+				var count func(e ast.Expr)
+				count = func(e ast.Expr) {
+					if b, ok := ast.Unparen(e).(*ast.BinaryExpr); ok && b.Op == token.ADD {
+						count(b.X)
+						count(b.Y)
+						return
+					}
+					leaves++
+				}
+				count(cs.Call.Args[0])
+				if leaves >= 3 {
+					for k := range pkgConsts(cs.Call.Args[0]) {
+						built[k] = true
+					}
+				}
+			}
+		}
+		// the stores the cleanup removes: the slice ranged over by the loop that calls StoreRepository.Remove
+		removed := map[string]bool{}
+		resolved := false
+		var pos = fi.Decl.Pos()
+		ast.Inspect(fi.Body, func(x ast.Node) bool {
+			rs, ok := x.(*ast.RangeStmt)
+			if !ok {
+				return true
+			}
+			has := false
+			ast.Inspect(rs.Body, func(y ast.Node) bool {
+				if call, ok := y.(*ast.CallExpr); ok {
+					if cs := w.resolveCall(fi, call); strings.HasSuffix(cs.Key, "StoreRepository.Remove") {
+						has = true
+					}
+				}
+				return true
+			})
+			id, isID := ast.Unparen(rs.X).(*ast.Ident)
+			if !has || !isID {
+				return true
+			}
+			pos = rs.Pos()
+			obj := info.Uses[id]
+			ast.Inspect(fi.Body, func(y ast.Node) bool {
+				as, ok := y.(*ast.AssignStmt)
+				if !ok {
+					return true
+				}
+				for i, l := range as.Lhs {
+					lid, ok := l.(*ast.Ident)
+					if !ok || i >= len(as.Rhs) || (info.Defs[lid] != obj && info.Uses[lid] != obj) {
+						continue
+					}
+					if cl, ok := ast.Unparen(as.Rhs[i]).(*ast.CompositeLit); ok {
+						resolved = true
+						for k := range pkgConsts(cl) {
+							removed[k] = true
+						}
+					} else {
+						resolved = false
+					}
+				}
+				return true
+			})
+			return true
+		})
+		names := func(m map[string]bool) []string {
+			var o []string
+			for k := range m {
+				o = append(o, k)
+			}
+			sort.Strings(o)
+			return o
+		}
+		c.Check(len(built) >= 3, r6, "version-qualified stores built by Optimize inventoried", token.NoPos, fmt.Sprintf("%v", names(built)), fmt.Sprintf("only %v found (3 known: lookup, centroids, vectors)", names(built)), nil)
+		var missing []string
+		for _, k := range names(built) {
+			if !removed[k] {
+				missing = append(missing, k)
+			}
+		}
+		c.Check(resolved && len(missing) == 0, r6, "initialize: the leftover cleanup removes every next-version store", pos, fmt.Sprintf("removes %v", names(removed)),
+			fmt.Sprintf("the cleanup of an interrupted run's leftovers does not remove %v (list resolved=%v): the retried Optimize re-adds every live vector under keys computed from the CURRENT centroids next to the entries the interrupted run wrote, so after the version switch Query returns an id twice (once scored with a superseded vector) and vectors of items deleted in between stay in the index", missing, resolved), nil)
+	}
+
 }
 
 func be(n *GNode) *ast.BinaryExpr { return n.Ast.(*ast.BinaryExpr) }
